@@ -56,7 +56,10 @@ type Env struct {
 }
 
 func isTimeType(t types.Type, name string) bool {
-	n, ok := t.(*types.Named)
+	if t == nil {
+		return false
+	}
+	n, ok := types.Unalias(t).(*types.Named)
 	return ok && n.Obj().Pkg() != nil && n.Obj().Pkg().Path() == "time" && n.Obj().Name() == name
 }
 
@@ -192,12 +195,8 @@ func buildExpr(p *Prog, v ssa.Value, env *Env, d int) *Expr {
 	case *ssa.Call:
 		return buildCall(p, x, 0, env, d+1, x.Type())
 	case *ssa.Phi:
-		parts := make([]string, len(x.Edges))
-		for i, e := range x.Edges {
-			parts[i] = buildExpr(p, e, env, d+8).String()
-		}
-		sort.Strings(parts)
-		return atom("phi("+strings.Join(parts, "|")+")", x.Type())
+		// a phi denotes a path-dependent value: kept opaque (identified by its SSA register)
+		return atom("phi#"+x.Name()+"@"+parentName(x), x.Type())
 	}
 	return atom(fmt.Sprintf("%T#%s@%s", v, v.Name(), parentName(v)), v.Type())
 }
@@ -799,3 +798,5 @@ func (e *Expr) Contains(sub string) bool {
 	})
 	return found
 }
+
+func newRat(n int64) *big.Rat { return big.NewRat(n, 1) }
